@@ -160,7 +160,11 @@ def step (_ : Unit) (ws : List String) : Unit × String :=
                    -- hs <auth> <ks> <kinds>: Model/ConnSetup.lean (connection set-up as a sequence of answers)
                    match ConnSetup.answer ws with
                    | some a => a
-                   | none => "bad-op")
+                   | none =>
+                     -- hsc <cfg> <supported> <kinds> <disc>: the same under non-default configurations
+                     match ConnSetup.answerCfg ws with
+                     | some a => a
+                     | none => "bad-op")
 
 def init : Unit := ()
 end Driver.C05
